@@ -37,6 +37,8 @@ func genC08(kind string) func(r *core.Rng) any {
 				p.ArcTo(rx, ry, core.PickF(r, []float64{0, 90, 180, 270}), r.Bool(), r.Bool(), ex, ey)
 				x, y = ex, ey
 			}
+		case "grid": // integer coordinates, radii and nice angles: exercises the exact-value shortcuts
+			p = genPath(r, pathOpts{Kinds: kAll, MaxSegs: 5, MaxSubs: 2, Closed: 2, Integer: true})
 		default: // mixed
 			p = genPath(r, pathOpts{Kinds: kAll, MaxSegs: 6, MaxSubs: 3, Closed: 2})
 		}
@@ -183,6 +185,7 @@ func init() {
 			{Name: "arcs", Quick: 2000, Thorough: 60000, Gen: genC08("arcs")},
 			{Name: "arcs-axis", Quick: 1000, Thorough: 20000, Gen: genC08("arcs-axis")},
 			{Name: "mixed", Quick: 2000, Thorough: 60000, Gen: genC08("mixed")},
+			{Name: "grid", Quick: 1500, Thorough: 40000, Gen: genC08("grid")},
 		},
 		NewCase:  func() any { return &c08Case{} },
 		Corpus:   c08Corpus,
